@@ -428,7 +428,7 @@ func f32(x float64) *float32 { v := float32(x); return &v }
 func main() {
 	tier, replay := hx.Args()
 	run := evid.New("C14", tier, "exploration")
-	run.Rule = "all single-gate circuits (every gate × every ordered tuple of distinct qubits, n=1..5), all two-gate circuits on n≤3 over a reduced gate set, and seeded random sequences of 2..12 gates with random angles; each compiled through the direct BasmBody path and a sample through the .bmq parser path; non-trivial = ≥1 matrix emitted, distinct by (path, circuit text)"
+	run.Rule = "all single-gate circuits (every gate × every ordered tuple of distinct qubits, n=1..5), all two-gate circuits on n≤3 over a reduced gate set, and seeded random sequences of 2..12 gates with random angles (within one turn, within ±5π and within ±40; the single-gate circuits also at 0, 2π, 3π, −4π, 7, −8.5, 13, 100, 1e-1, 1e-5); each compiled through the direct BasmBody path and a sample through the .bmq parser path; non-trivial = ≥1 matrix emitted, distinct by (path, circuit text)"
 	run.Assume = []string{"reference unitary: complex128, textbook gate matrices, first declared qubit = most significant; float32 tolerance 1e-4 on the product and on simulation outputs, 1e-5 on M·M†",
 		"global phase is not quotiented", "the tool spells the parametrised phase-shift gate 'r' (its 'p' is the fixed S gate); the reference follows the tool's spelling for the mnemonic only"}
 	run.Floor = 200
@@ -458,7 +458,7 @@ func main() {
 				cs = append(cs, circuit{n, []gate{{Name: g, Qubits: []int{q}}}})
 			}
 			for _, g := range gates1p {
-				for _, a := range []float64{0.3, math.Pi / 2, -1.1, math.Pi} {
+				for _, a := range []float64{0.3, math.Pi / 2, -1.1, math.Pi, 0, 2 * math.Pi, 7.0, -8.5, 3 * math.Pi, -4 * math.Pi, 13.0, 1e-1, 1e-5, -2.5e1, 100} {
 					cs = append(cs, circuit{n, []gate{{Name: g, Qubits: []int{q}, Angle: f32(a)}}})
 				}
 			}
@@ -524,7 +524,7 @@ func main() {
 			case r < 8:
 				c.Gates = append(c.Gates, gate{Name: gates1[rng.IntN(len(gates1))], Qubits: []int{rng.IntN(n)}})
 			default:
-				c.Gates = append(c.Gates, gate{Name: gates1p[rng.IntN(len(gates1p))], Qubits: []int{rng.IntN(n)}, Angle: f32((rng.Float64()*2 - 1) * 2 * math.Pi)})
+				c.Gates = append(c.Gates, gate{Name: gates1p[rng.IntN(len(gates1p))], Qubits: []int{rng.IntN(n)}, Angle: f32((rng.Float64()*2 - 1) * []float64{2 * math.Pi, 2 * math.Pi, 5 * math.Pi, 40}[rng.IntN(4)])})
 			}
 		}
 		cs = append(cs, c)
